@@ -406,8 +406,13 @@ class C07(ServerProp):
             h.request(a, pipelined=rng.choice([1, 2, 3]), poll_between=False)
             h.request(b, poll_between=False)
             h.ops.append([11, 6])
-            if rng.random() < 0.5:
-                h.ops.append([12, rng.randint(0, 3)])
+            if rng.random() < 0.6:
+                for _ in range(rng.randint(1, 2)):
+                    h.ops.append([12, rng.randint(0, 3)])
+                if rng.random() < 0.6:
+                    # the answer is written to the client, which goes away without reading it (the kernel then reports
+                    # an error condition on the server's end, not just a hang-up)
+                    h.ops.append([11, 6])
             h.ops.append([rng.choice([2, 2, 3]), a])
             if a in h.alive:
                 h.alive.remove(a)
@@ -463,8 +468,9 @@ class C08(ServerProp):
     rule = ('well-behaved histories: 1..4 clients keep their connections open and send only well-formed requests (split at '
             'arbitrary points, pipelined, with and without bodies and Expect); the application answers immediately, late, in '
             'batches, out of order; polls are irregular (single polls and polls to quiescence), flush_outgoing_writes follows '
-            'a quarter of the answers; polling only when the epoll descriptor is readable (poll(2)); responses up to 3 KB '
-            '(responses beyond the socket buffer are not modelled); non-trivial = at least two clients')
+            'a quarter of the answers; polling only when the epoll descriptor is readable (poll(2)); responses up to 3 KB; '
+            'plus a few histories with responses of 250 KB..1.5 MB (beyond the socket buffer: not modelled, K3 -- these are '
+            'decided by the implementation-level oracle alone and excluded from the model comparison); non-trivial = at least two clients')
 
     def cases(self, rng, tier):
         out = []
@@ -501,6 +507,27 @@ class C08(ServerProp):
                 h.ops.append([5, c])
             h.finish()
             out.append(self.mk(h, 0, {'kind': 'batch-flush-drain'}))
+        # responses larger than the socket buffer: outside the kernel model (K3), decided on the implementation alone:
+        # the client reads in rounds, the server is polled only while its epoll descriptor signals
+        for _ in range(6 if tier == 'quick' else 60):
+            h = Hist(rng)
+            cs = [h.connect() for _ in range(rng.randint(1, 2))]
+            h.ops.append([11, 4])
+            for c in cs:
+                h.request(c, poll_between=False)
+            h.ops.append([11, 8])
+            size = rng.choice([300000, 700000] if tier == 'quick' else [250000, 300000, 700000, 1500000])
+            body = (b'0123456789abcdef' * (size // 16 + 1))[:size]
+            for c in cs:
+                h.ops.append([7, 0, [1, 1, [[0, body]]]])
+            for _ in range(size // 60000 + 6):
+                h.ops.append([11, 6])
+                for c in cs:
+                    h.ops.append([5, c])
+            for c in cs:
+                h.request(c, poll_between=False)
+            h.finish()
+            out.append(self.mk(h, 0, {'kind': 'large-response', 'oracle_only': True, 'size': size, 'clients': cs}))
         return out
 
     def oracle(self, cases, impl):
@@ -510,6 +537,23 @@ class C08(ServerProp):
             a = self.analyse(t, lines)
             if a['errs']:
                 v.append(self.viol(t, 'polling and responding never fail for well-behaved clients', a['errs'][0][1], 'call-failed'))
+                continue
+            if m.get('kind') == 'large-response':
+                for c in m['clients']:
+                    rs = pyhttp.read_all(a['rx'].get(c, b''))
+                    bodies = [b for (_, _, b) in (rs or [])]
+                    ok = rs is not None and len(bodies) == 2 and len(bodies[0]) == m['size'] and \
+                        bodies[0] == (b'0123456789abcdef' * (m['size'] // 16 + 1))[:m['size']] and bodies[1] == b'echo:/c%d/r1' % c
+                    if not ok:
+                        v.append(self.viol(t, 'client %d receives the %d-byte response in full, then the answer to its next request' % (c, m['size']),
+                                           'received %d bytes: %s' % (len(a['rx'].get(c, b'')),
+                                                                      'unparseable' if rs is None else repr([len(b) for b in bodies])), 'large'))
+                        break
+                else:
+                    finals = [ln for (i, ln) in a['polls'][-2:]]
+                    if len(finals) == 2 and not all(x.endswith('blocked') for x in finals):
+                        v.append(self.viol(t, 'epoll stops signalling once no input, output or unanswered request remains',
+                                           ' / '.join(finals)[:300], 'spin'))
                 continue
             # each complete request yielded exactly once
             for c, n in m.get('sent', {}).items():
